@@ -13,6 +13,7 @@ from pyvc.arrays import Arr, Axis
 from contracts.parser import MathShim
 
 P = {"C17"}
+PT = {"C17", "C08", "C13"}      # tower coordinates: also a link of C08's convention chain and of C13's pipeline
 
 
 def generate_accuracy(ctx):
@@ -86,7 +87,7 @@ def generate_accuracy(ctx):
 
 
 def generate(ctx):
-    if not ctx.wants(P):
+    if not ctx.wants(PT):
         return
     generate_accuracy(ctx)
     ns = harness.namespace("bldfm.config_parser")
@@ -107,6 +108,7 @@ def generate(ctx):
 
     def thunk(run):
         run.scope = "config_parser.latlon_to_xy / plotting._geo.xy_to_latlon"
+        run.props = set(P)
         p0, l0, c, facts = refs(run)
         lat, lon = sym.fresh_real("lat"), sym.fresh_real("lon")
         x, y = fwd(lat, lon, p0, l0)
@@ -144,14 +146,14 @@ def generate(ctx):
         # tower coordinates are filled from the forward map
         tw = ns["TowerConfig"](name="T", lat=lat, lon=lon, z_m=Num(2))
         tw.compute_local_xy(p0, l0)
-        run.oblige("tower.compute_local_xy", loops.scalar_eq(tw.x, x) & loops.scalar_eq(tw.y, y), kind="post", view="value")
+        run.oblige("tower.compute_local_xy", loops.scalar_eq(tw.x, x) & loops.scalar_eq(tw.y, y), kind="post", view="value", props=PT)
         # ... whatever the tower's coordinates were before (a tower object that already went through a configuration and
         # is handed to another one -- dataclasses.replace(config, ...) re-runs __post_init__ on the SAME towers): the result
         # is a function of lat/lon and the reference only, and repeating the call changes nothing
         x0, y0 = sym.fresh_real("x_before"), sym.fresh_real("y_before")
         tw2 = ns["TowerConfig"](name="T", lat=lat, lon=lon, z_m=Num(2), x=x0, y=y0)
         tw2.compute_local_xy(p0, l0)
-        run.oblige("tower.compute_local_xy.independent-of-previous-coordinates", loops.scalar_eq(tw2.x, x) & loops.scalar_eq(tw2.y, y), kind="post", view="value")
+        run.oblige("tower.compute_local_xy.independent-of-previous-coordinates", loops.scalar_eq(tw2.x, x) & loops.scalar_eq(tw2.y, y), kind="post", view="value", props=PT)
         tw2.compute_local_xy(p0, l0)
-        run.oblige("tower.compute_local_xy.idempotent", loops.scalar_eq(tw2.x, x) & loops.scalar_eq(tw2.y, y), kind="post", view="value")
-    ctx.explore("geo", thunk, P)
+        run.oblige("tower.compute_local_xy.idempotent", loops.scalar_eq(tw2.x, x) & loops.scalar_eq(tw2.y, y), kind="post", view="value", props=PT)
+    ctx.explore("geo", thunk, PT)
